@@ -905,9 +905,30 @@ func (x *Exec) opChannelBind(st *Step) { //nolint:cyclop
 			}
 		}
 	}
+	// at the very instant the allocation itself expires: served before the expiry (success, and
+	// everything goes with the allocation) or after it (no allocation) - either way nothing of
+	// the request may outlive the allocation
+	allocTie := false
+	if st.Rel == "alloc-tie" && st.Defect == "" && x.w.cfg.CallbackSleepS == 0 {
+		if a := x.m.Allocs[c.Idx]; a != nil && a.User == Users[ui].Name {
+			x.tieWith(a.Deadline, "allocation (ChannelBind)")
+			allocTie = time.Now().Equal(a.Deadline)
+		}
+	}
 	m := &ref.Msg{Method: ref.MethodChannelBind, Class: ref.ClassRequest, TxID: c.nextTx()}
 	m.Add(ref.AttrChannelNumber, ref.ChannelNumberAttr(num))
 	m.Add(ref.AttrXORPeerAddress, xorPeerValue(pi, m.TxID))
+	if allocTie {
+		a := x.m.Allocs[c.Idx]
+		a.Deadline = a.Deadline.Add(time.Nanosecond) // still there for the bookkeeping of the exchange
+		raw, _, _ := x.signed(c, ui, m, "", 0)
+		x.exchange(c, raw, ref.MethodChannelBind, nil, nil, "ChannelBind at the instant the allocation expires")
+		x.m.remove(c.Idx)
+		x.slept = true
+		x.St.inc("tie:channelbind-at-allocation-expiry")
+
+		return
+	}
 	lost := st.RespLost && st.Defect == "" && !c.Stream
 	if lost {
 		x.w.srvSock.FailWrites(1)
